@@ -68,6 +68,12 @@ pub fn failing_only() -> Vec<(&'static str, WCall)> {
         ("full-too-big-for-width", t(NItem::Full(ID_ROOT, vec![NItem::Leaf(ID_S, Val::S(big.clone()))]), WOpt::Width(1))),
         ("full-too-big-for-width", t(NItem::Full(ID_ROOT, vec![NItem::Leaf(ID_U, Val::U(1)), NItem::Leaf(ID_S, Val::S("z".repeat(122)))]), WOpt::Width(1))),
         ("full-with-unknown-size", t(NItem::Full(ID_M, vec![NItem::Leaf(ID_MU, Val::U(1))]), WOpt::Unknown)),
+        // an End that carries the unknown-size option (or goes through the deprecated call) is an End like any other
+        ("end-of-unopened", t(NItem::End(ID_K), WOpt::Unknown)),
+        ("end-of-unopened", t(NItem::End(ID_ROOT), WOpt::Unknown)),
+        ("end-of-unopened", t(NItem::End(ID_M), WOpt::UnknownDeprecated)),
+        ("end-of-unopened", t(NItem::End(ID_ROOT), WOpt::UnknownDeprecated)),
+        ("end-of-unopened", t(NItem::End(ID_N), WOpt::Width(3))),
         ("end-of-unopened", t(NItem::End(ID_K), WOpt::Default)),
         ("end-of-unopened", t(NItem::End(ID_P), WOpt::Width(2))),
         ("not-allowed-here", t(NItem::Start(ID_K), WOpt::Unknown)),
@@ -342,7 +348,7 @@ pub fn run(ctx: &mut Ctx) {
     let alpha = base_alphabet(!ctx.quick());
     let depth = ctx.tier.pick(4, 5);
     let cont_len = 2;
-    ctx.meta("rule", "cases: (valid history h, rejected call f, continuation s): h = every sequence of accepted calls up to the depth bound over the base alphabet (known/unknown/explicit-width Starts, Ends, leaves incl. a 127-byte string, a two-level Full, flush), f = every alphabet call and every failing-only call (too-small explicit width for leaf / Full / master End via content growth, unknown size on a non-master, malformed raw ids, End of a master that is not innermost or not open, Full with an invalid child at first / middle / nested / last position, Full whose children contain Start / End items (an End of its own or of an enclosing master, a Start that is never ended), Full with unknown size, misplaced tags) that the real writer rejects with a non-I/O error in the state after h, s = every sequence of <= 2 further alphabet calls (valid or not) followed by into_inner. Oracle (differential): h+f+s and h+s give the same Ok/Err kind for every call of s, identical destination bytes after each, identical into_inner result and bytes. Plus a size-window sweep: chains of 1-5 open known-size masters, each position in turn with a 1-byte size field, around a payload of every length 80-130 (so that content + the headers of the masters still to be closed crosses the 127-byte point at every alignment), f in {flush, End of the innermost master, a misplaced Full}, s in 6 continuations. Calls the writer accepts are outside the premise. Non-trivial: non-empty h and s.");
+    ctx.meta("rule", "cases: (valid history h, rejected call f, continuation s): h = every sequence of accepted calls up to the depth bound over the base alphabet (known/unknown/explicit-width Starts, Ends, leaves incl. a 127-byte string, a two-level Full, flush), f = every alphabet call and every failing-only call (too-small explicit width for leaf / Full / master End via content growth, unknown size on a non-master, malformed raw ids, End of a master that is not innermost or not open (plain, with the unknown-size option, through the deprecated call, with a width option), Full with an invalid child at first / middle / nested / last position, Full whose children contain Start / End items (an End of its own or of an enclosing master, a Start that is never ended), Full with unknown size, misplaced tags) that the real writer rejects with a non-I/O error in the state after h, s = every sequence of <= 2 further alphabet calls (valid or not) followed by into_inner. Oracle (differential): h+f+s and h+s give the same Ok/Err kind for every call of s, identical destination bytes after each, identical into_inner result and bytes. Plus a size-window sweep: chains of 1-5 open known-size masters, each position in turn with a 1-byte size field, around a payload of every length 80-130 (so that content + the headers of the masters still to be closed crosses the 127-byte point at every alignment), f in {flush, End of the innermost master, a misplaced Full}, s in 6 continuations. Calls the writer accepts are outside the premise. Non-trivial: non-empty h and s.");
     ctx.meta("bounds", &format!("alphabet {} calls + {} failing-only calls, history depth {}, continuation length {}", alpha.len(), failing_only().len(), depth, cont_len));
     ctx.meta("assumptions", "error kinds are compared, not messages || I/O failures of the destination are outside the statement");
     for c in ["rejected:tag-not-allowed-here", "rejected:end-of-non-innermost-master", "rejected:malformed-raw-id", "rejected:unknown-size-on-non-master", "rejected:width-too-small-leaf", "rejected:full-with-invalid-child-or-placement", "rejected:size-not-representable", "rejected:size-window/flush-rejected", "rejected:size-window/end-rejected"] {
